@@ -91,40 +91,7 @@ func c12(c *Check) {
 
 	c.Rule("C12/three-way-write", "whoever stores a pair P also indexes it under id=P.GetID() by its contract address and by all of P.Denoms (AddCoin: the added denom, id unchanged; ToggleRelay: only Enabled changes); after DeleteTokenPair the whole pair is re-indexed", 14)
 	threeWay := func(fnSpec string, wantAddr func(p string) []string) {
-		fn := c.F(fnSpec)
-		sets := c.Calls(fn, "keeper.(Keeper).SetTokenPair")
-		if !c.Req(len(sets) == 1, "C12/three-way-write", funcName(fn)+"/SetTokenPair", fn.Pos(), "1 site", fmt.Sprintf("%d SetTokenPair sites", len(sets))) {
-			return
-		}
-		p := c.P.ArgExprs(sets[0])[2].String()
-		id := "aggregate/types.(TokenPair).GetID(" + p + ")"
-		// denoms
-		okD := false
-		var seenD []string
-		for _, cs := range c.Calls(fn, "keeper.(Keeper).SetDenomsMap") {
-			a := c.P.ArgExprs(cs)
-			seenD = append(seenD, "SetDenomsMap("+trunc(a[2].String())+")")
-			pd := c.P.Ex(fn).mkField("Denoms", nil, c.P.ArgExprs(sets[0])[2]).String()
-			if a[2].String() == pd && a[3].String() == id {
-				okD = true
-			}
-		}
-		for _, cs := range c.Calls(fn, "keeper.(Keeper).SetDenomMap") {
-			seenD = append(seenD, "SetDenomMap("+trunc(c.P.ArgExprs(cs)[2].String())+")")
-		}
-		c.Req(okD, "C12/three-way-write", funcName(fn)+"/all denominations indexed", sets[0].Ins.Pos(), "SetDenomsMap(P.Denoms, P.GetID())", fmt.Sprintf("pair is stored but not indexed under all of its denominations with its own id; denom index writes seen: %v", seenD))
-		okA := false
-		var seenA []string
-		for _, cs := range c.Calls(fn, "keeper.(Keeper).SetERC20Map") {
-			a := c.P.ArgExprs(cs)
-			seenA = append(seenA, trunc(a[2].String()))
-			for _, w := range wantAddr(p) {
-				if normAddr(a[2].String()) == w && a[3].String() == id {
-					okA = true
-				}
-			}
-		}
-		c.Req(okA, "C12/three-way-write", funcName(fn)+"/contract indexed", sets[0].Ins.Pos(), "SetERC20Map(P's contract, P.GetID())", fmt.Sprintf("pair is stored but its contract address is not indexed with its own id; seen: %v", seenA))
+		threeWayRule(c, "C12/three-way-write", fnSpec, wantAddr)
 	}
 	pairAddr := func(p string) []string {
 		// P.ERC20Address as an address
@@ -244,4 +211,42 @@ func before(a, b ssa.Instruction) bool {
 		return instrIndex(a) < instrIndex(b)
 	}
 	return a.Block().Dominates(b.Block())
+}
+
+// threeWayRule: whoever stores a pair also indexes its contract and all of its denominations under the pair's id.
+func threeWayRule(c *Check, rule, fnSpec string, wantAddr func(p string) []string) {
+	fn := c.F(fnSpec)
+	sets := c.Calls(fn, "keeper.(Keeper).SetTokenPair")
+	if !c.Req(len(sets) == 1, rule, funcName(fn)+"/SetTokenPair", fn.Pos(), "1 site", fmt.Sprintf("%d SetTokenPair sites", len(sets))) {
+		return
+	}
+	p := c.P.ArgExprs(sets[0])[2].String()
+	id := "aggregate/types.(TokenPair).GetID(" + p + ")"
+	// denoms
+	okD := false
+	var seenD []string
+	for _, cs := range c.Calls(fn, "keeper.(Keeper).SetDenomsMap") {
+		a := c.P.ArgExprs(cs)
+		seenD = append(seenD, "SetDenomsMap("+trunc(a[2].String())+")")
+		pd := c.P.Ex(fn).mkField("Denoms", nil, c.P.ArgExprs(sets[0])[2]).String()
+		if a[2].String() == pd && a[3].String() == id {
+			okD = true
+		}
+	}
+	for _, cs := range c.Calls(fn, "keeper.(Keeper).SetDenomMap") {
+		seenD = append(seenD, "SetDenomMap("+trunc(c.P.ArgExprs(cs)[2].String())+")")
+	}
+	c.Req(okD, rule, funcName(fn)+"/all denominations indexed", sets[0].Ins.Pos(), "SetDenomsMap(P.Denoms, P.GetID())", fmt.Sprintf("pair is stored but not indexed under all of its denominations with its own id; denom index writes seen: %v", seenD))
+	okA := false
+	var seenA []string
+	for _, cs := range c.Calls(fn, "keeper.(Keeper).SetERC20Map") {
+		a := c.P.ArgExprs(cs)
+		seenA = append(seenA, trunc(a[2].String()))
+		for _, w := range wantAddr(p) {
+			if normAddr(a[2].String()) == w && a[3].String() == id {
+				okA = true
+			}
+		}
+	}
+	c.Req(okA, rule, funcName(fn)+"/contract indexed", sets[0].Ins.Pos(), "SetERC20Map(P's contract, P.GetID())", fmt.Sprintf("pair is stored but its contract address is not indexed with its own id; seen: %v", seenA))
 }
